@@ -36,6 +36,10 @@ func genBatch(r *RNG, withBad bool, maxLines int) *Scenario {
 	nw := r.Range(1, 4)
 	for i := 0; i < nw; i++ {
 		p := batchProfile()
+		// automatic management in 40 % of the projects (with failing-line classes in the batch only irrigation and
+		// fertilisation: the tillage-inside-the-crop class relies on the rotation's own dates)
+		p.AllowAuto = r.Bool(0.4)
+		p.AutoNoDates = withBad
 		if withBad {
 			p.BareProb = 0 // the tillage-in-crop class needs a crop
 		}
@@ -68,6 +72,12 @@ func genBatch(r *RNG, withBad bool, maxLines int) *Scenario {
 			if len(w.Rot) > 1 {
 				w.CropAlias = map[string]string{w.Rot[1].Crop: "X" + string(rune('A'+i))}
 			}
+		}
+	}
+	// stratum: projects with a second input set (weather folder wx2, file extension alt) that some lines select
+	for i, w := range sc.Worlds {
+		if r.Bool(0.35) {
+			w.Alt = r.Sub("alt", uint64(i)).U64() | 1
 		}
 	}
 	aliased := false
@@ -137,6 +147,14 @@ func genBatch(r *RNG, withBad bool, maxLines int) *Scenario {
 		for k := r.Intn(3); k > 0; k-- {
 			bl.Extra = append(bl.Extra, overrides[r.Intn(len(overrides))](w))
 		}
+		if w.Alt != 0 {
+			if r.Bool(0.4) {
+				bl.Extra = append(bl.Extra, "WeatherFolder=wx2")
+			}
+			if r.Bool(0.4) {
+				bl.Extra = append(bl.Extra, "fileExtension=alt")
+			}
+		}
 		if r.Bool(0.25) && len(sc.Lines) > 0 {
 			// repeated line (same arguments, distinct output id)
 			prev := sc.Lines[r.Intn(len(sc.Lines))]
@@ -170,6 +188,18 @@ func genBatch(r *RNG, withBad bool, maxLines int) *Scenario {
 			sc.Params = map[string]string{}
 		}
 		sc.Params["storm"] = kind
+	}
+	for i := range sc.Lines {
+		// the second weather folder holds the station's regular series only: lines that select another series by its code stay in wx
+		if ex := strings.Join(sc.Lines[i].Extra, " "); strings.Contains(ex, "fcode=") && strings.Contains(ex, "WeatherFolder=wx2") {
+			var kept []string
+			for _, a := range sc.Lines[i].Extra {
+				if a != "WeatherFolder=wx2" {
+					kept = append(kept, a)
+				}
+			}
+			sc.Lines[i].Extra = kept
+		}
 	}
 	sp := &SchedSpec{Sub: r.U64()}
 	sp.Concurrency = r.Range(1, min(16, nl+1))
